@@ -1,6 +1,7 @@
 // C04 (view level, constant shapes, symbolic element values), part 2: split, sliding_window, diagonal, diagflat, tril/triu, the generators
 // (eye / identity / tri / full / zeros / ones (_like) / arange on an integer grid), pad, resize, expand.
 #include "cview.hpp"
+#define HV_ID "C04.view.has_value"
 #include "nmtools/array/view/split.hpp"
 #include "nmtools/array/view/sliding_window.hpp"
 #include "nmtools/array/view/diagonal.hpp"
@@ -23,104 +24,104 @@
 constexpr size_t Z = 0;
 constexpr nm::dtype_t<long> i64{};
 // ---- split
-void ob_c04j_split_sections(const carr<4,3>& a)
-{
+void ob_c04j_split_sections(const ARR<4,3>& a)
+{ PIN(a, 4,3);
     auto r = view::split(a, meta::ct_v<2>, meta::ct_v<0>);
     { const auto& v = nm::get<0>(r); EXPECT_VIEW2("C04.view.split.shape", "C04.view.split.equal_sections", v, 2,3, a(i, j), 0); }
     { const auto& v = nm::get<1>(r); EXPECT_VIEW2("C04.view.split.shape", "C04.view.split.equal_sections", v, 2,3, a(i+2, j), 1); }
 }
-void ob_c04j_split_indices(const carr<2,4>& a)
-{
+void ob_c04j_split_indices(const ARR<2,4>& a)
+{ PIN(a, 2,4);
     auto r = view::split(a, nmtools_tuple{meta::ct_v<1>, meta::ct_v<3>}, meta::ct_v<-1>);
     { const auto& v = nm::get<0>(r); EXPECT_VIEW2("C04.view.split.shape", "C04.view.split.at_indices", v, 2,1, a(i, j), 2); }
     { const auto& v = nm::get<1>(r); EXPECT_VIEW2("C04.view.split.shape", "C04.view.split.at_indices", v, 2,2, a(i, j+1), 3); }
     { const auto& v = nm::get<2>(r); EXPECT_VIEW2("C04.view.split.shape", "C04.view.split.at_indices", v, 2,1, a(i, j+3), 4); }
 }
 // ---- sliding_window
-void ob_c04j_window(const carr<4>& p, const carr<3,4>& a)
-{
-    { auto v = nm::unwrap(view::sliding_window(p, 2)); EXPECT_VIEW2("C04.view.sliding_window.shape", "C04.view.sliding_window.element", v, 3,2, p(i+j), 0); }
-    { auto v = nm::unwrap(view::sliding_window(a, std::array<int,2>{2,2})); EXPECT_VIEW4("C04.view.sliding_window.shape", "C04.view.sliding_window.element", v, 2,3,2,2, a(i+k, j+l), 1); }
-    { auto v = nm::unwrap(view::sliding_window(a, 3, 1)); EXPECT_VIEW3("C04.view.sliding_window.shape", "C04.view.sliding_window.along_one_axis", v, 3,2,3, a(i, j+k), 2); }
-    { auto v = nm::unwrap(view::sliding_window(a, 2, -2)); EXPECT_VIEW3("C04.view.sliding_window.shape", "C04.view.sliding_window.along_one_axis", v, 2,4,2, a(i+k, j), 3); }
+void ob_c04j_window(const ARR<4>& p, const ARR<3,4>& a)
+{ PIN(p, 4); PIN(a, 3,4);
+    { VIEW(v, view::sliding_window(p, 2)); EXPECT_VIEW2("C04.view.sliding_window.shape", "C04.view.sliding_window.element", v, 3,2, p(i+j), 0); }
+    { VIEW(v, view::sliding_window(a, std::array<int,2>{2,2})); EXPECT_VIEW4("C04.view.sliding_window.shape", "C04.view.sliding_window.element", v, 2,3,2,2, a(i+k, j+l), 1); }
+    { VIEW(v, view::sliding_window(a, 3, 1)); EXPECT_VIEW3("C04.view.sliding_window.shape", "C04.view.sliding_window.along_one_axis", v, 3,2,3, a(i, j+k), 2); }
+    { VIEW(v, view::sliding_window(a, 2, -2)); EXPECT_VIEW3("C04.view.sliding_window.shape", "C04.view.sliding_window.along_one_axis", v, 2,4,2, a(i+k, j), 3); }
 }
 // ---- diagonal / diagflat
-void ob_c04j_diagonal(const carr<3,4>& a, const carr<2,3,4>& b)
-{
-    { auto v = nm::unwrap(view::diagonal(a)); EXPECT_VIEW1("C04.view.diagonal.shape", "C04.view.diagonal.element", v, 3, a(i, i), 0); }
-    { auto v = nm::unwrap(view::diagonal(a, 1)); EXPECT_VIEW1("C04.view.diagonal.shape", "C04.view.diagonal.positive_offset", v, 3, a(i, i+1), 1); }
-    { auto v = nm::unwrap(view::diagonal(a, 2)); EXPECT_VIEW1("C04.view.diagonal.shape", "C04.view.diagonal.positive_offset", v, 2, a(i, i+2), 2); }
-    { auto v = nm::unwrap(view::diagonal(a, -1)); EXPECT_VIEW1("C04.view.diagonal.shape", "C04.view.diagonal.negative_offset", v, 2, a(i+1, i), 3); }
-    { auto v = nm::unwrap(view::diagonal(b, 0, 0, 2)); EXPECT_VIEW2("C04.view.diagonal.shape", "C04.view.diagonal.chosen_axes_diagonal_axis_is_appended", v, 3,2, b(j, i, j), 4); }
-    { auto v = nm::unwrap(view::diagonal(b, 1, -2, -1)); EXPECT_VIEW2("C04.view.diagonal.shape", "C04.view.diagonal.negative_axes", v, 2,3, b(i, j, j+1), 5); }
+void ob_c04j_diagonal(const ARR<3,4>& a, const ARR<2,3,4>& b)
+{ PIN(a, 3,4); PIN(b, 2,3,4);
+    { VIEW(v, view::diagonal(a)); EXPECT_VIEW1("C04.view.diagonal.shape", "C04.view.diagonal.element", v, 3, a(i, i), 0); }
+    { VIEW(v, view::diagonal(a, 1)); EXPECT_VIEW1("C04.view.diagonal.shape", "C04.view.diagonal.positive_offset", v, 3, a(i, i+1), 1); }
+    { VIEW(v, view::diagonal(a, 2)); EXPECT_VIEW1("C04.view.diagonal.shape", "C04.view.diagonal.positive_offset", v, 2, a(i, i+2), 2); }
+    { VIEW(v, view::diagonal(a, -1)); EXPECT_VIEW1("C04.view.diagonal.shape", "C04.view.diagonal.negative_offset", v, 2, a(i+1, i), 3); }
+    { VIEW(v, view::diagonal(b, 0, 0, 2)); EXPECT_VIEW2("C04.view.diagonal.shape", "C04.view.diagonal.chosen_axes_diagonal_axis_is_appended", v, 3,2, b(j, i, j), 4); }
+    { VIEW(v, view::diagonal(b, 1, -2, -1)); EXPECT_VIEW2("C04.view.diagonal.shape", "C04.view.diagonal.negative_axes", v, 2,3, b(i, j, j+1), 5); }
 }
-void ob_c04j_diagflat(const carr<3>& p, const carr<2,2>& a)
-{
-    { auto v = nm::unwrap(view::diagflat(p)); EXPECT_VIEW2("C04.view.diagflat.shape", "C04.view.diagflat.element", v, 3,3, (i == j ? p(i) : 0L), 0); }
-    { auto v = nm::unwrap(view::diagflat(p, 1)); EXPECT_VIEW2("C04.view.diagflat.shape", "C04.view.diagflat.offset", v, 4,4, (j == i+1 ? p(i < 3 ? i : Z) : 0L), 1); }
-    { auto v = nm::unwrap(view::diagflat(p, -1)); EXPECT_VIEW2("C04.view.diagflat.shape", "C04.view.diagflat.offset", v, 4,4, (i == j+1 ? p(j < 3 ? j : Z) : 0L), 2); }
-    { auto v = nm::unwrap(view::diagflat(a)); EXPECT_VIEW2("C04.view.diagflat.shape", "C04.view.diagflat.flattens_its_operand", v, 4,4, (i == j ? a(i/2, i%2) : 0L), 3); }
+void ob_c04j_diagflat(const ARR<3>& p, const ARR<2,2>& a)
+{ PIN(p, 3); PIN(a, 2,2);
+    { VIEW(v, view::diagflat(p)); EXPECT_VIEW2("C04.view.diagflat.shape", "C04.view.diagflat.element", v, 3,3, (i == j ? p(i) : 0L), 0); }
+    { VIEW(v, view::diagflat(p, 1)); EXPECT_VIEW2("C04.view.diagflat.shape", "C04.view.diagflat.offset", v, 4,4, (j == i+1 ? p(i < 3 ? i : Z) : 0L), 1); }
+    { VIEW(v, view::diagflat(p, -1)); EXPECT_VIEW2("C04.view.diagflat.shape", "C04.view.diagflat.offset", v, 4,4, (i == j+1 ? p(j < 3 ? j : Z) : 0L), 2); }
+    { VIEW(v, view::diagflat(a)); EXPECT_VIEW2("C04.view.diagflat.shape", "C04.view.diagflat.flattens_its_operand", v, 4,4, (i == j ? a(i/2, i%2) : 0L), 3); }
 }
 // ---- tril / triu
-void ob_c04j_tri_views(const carr<3,3>& a, const carr<2,2,3>& b)
-{
-    { auto v = nm::unwrap(view::tril(a)); EXPECT_VIEW2("C04.view.tril.shape", "C04.view.tril.element", v, 3,3, (j <= i ? a(i,j) : 0L), 0); }
-    { auto v = nm::unwrap(view::tril(a, 1)); EXPECT_VIEW2("C04.view.tril.shape", "C04.view.tril.element", v, 3,3, (j <= i+1 ? a(i,j) : 0L), 1); }
-    { auto v = nm::unwrap(view::tril(a, -1)); EXPECT_VIEW2("C04.view.tril.shape", "C04.view.tril.element", v, 3,3, (j+1 <= i ? a(i,j) : 0L), 2); }
-    { auto v = nm::unwrap(view::triu(a)); EXPECT_VIEW2("C04.view.triu.shape", "C04.view.triu.element", v, 3,3, (j >= i ? a(i,j) : 0L), 3); }
-    { auto v = nm::unwrap(view::triu(a, 1)); EXPECT_VIEW2("C04.view.triu.shape", "C04.view.triu.element", v, 3,3, (j >= i+1 ? a(i,j) : 0L), 4); }
-    { auto v = nm::unwrap(view::triu(a, -1)); EXPECT_VIEW2("C04.view.triu.shape", "C04.view.triu.element", v, 3,3, (j+1 >= i ? a(i,j) : 0L), 5); }
-    { auto v = nm::unwrap(view::tril(b)); EXPECT_VIEW3("C04.view.tril.shape", "C04.view.tril.last_two_axes_of_a_batch", v, 2,2,3, (k <= j ? b(i,j,k) : 0L), 6); }
-    { auto v = nm::unwrap(view::triu(b, 1)); EXPECT_VIEW3("C04.view.triu.shape", "C04.view.triu.last_two_axes_of_a_batch", v, 2,2,3, (k >= j+1 ? b(i,j,k) : 0L), 7); }
+void ob_c04j_tri_views(const ARR<3,3>& a, const ARR<2,2,3>& b)
+{ PIN(a, 3,3); PIN(b, 2,2,3);
+    { VIEW(v, view::tril(a)); EXPECT_VIEW2("C04.view.tril.shape", "C04.view.tril.element", v, 3,3, (j <= i ? a(i,j) : 0L), 0); }
+    { VIEW(v, view::tril(a, 1)); EXPECT_VIEW2("C04.view.tril.shape", "C04.view.tril.element", v, 3,3, (j <= i+1 ? a(i,j) : 0L), 1); }
+    { VIEW(v, view::tril(a, -1)); EXPECT_VIEW2("C04.view.tril.shape", "C04.view.tril.element", v, 3,3, (j+1 <= i ? a(i,j) : 0L), 2); }
+    { VIEW(v, view::triu(a)); EXPECT_VIEW2("C04.view.triu.shape", "C04.view.triu.element", v, 3,3, (j >= i ? a(i,j) : 0L), 3); }
+    { VIEW(v, view::triu(a, 1)); EXPECT_VIEW2("C04.view.triu.shape", "C04.view.triu.element", v, 3,3, (j >= i+1 ? a(i,j) : 0L), 4); }
+    { VIEW(v, view::triu(a, -1)); EXPECT_VIEW2("C04.view.triu.shape", "C04.view.triu.element", v, 3,3, (j+1 >= i ? a(i,j) : 0L), 5); }
+    { VIEW(v, view::tril(b)); EXPECT_VIEW3("C04.view.tril.shape", "C04.view.tril.last_two_axes_of_a_batch", v, 2,2,3, (k <= j ? b(i,j,k) : 0L), 6); }
+    { VIEW(v, view::triu(b, 1)); EXPECT_VIEW3("C04.view.triu.shape", "C04.view.triu.last_two_axes_of_a_batch", v, 2,2,3, (k >= j+1 ? b(i,j,k) : 0L), 7); }
 }
 // ---- generators
 void ob_c04j_generators()
-{
-    { auto v = nm::unwrap(view::eye(3, nm::None, 0, i64)); EXPECT_VIEW2("C04.view.eye.shape", "C04.view.eye.element", v, 3,3, (i == j ? 1L : 0L), 0); }
-    { auto v = nm::unwrap(view::eye(2, 4, 1, i64)); EXPECT_VIEW2("C04.view.eye.shape", "C04.view.eye.element", v, 2,4, (j == i+1 ? 1L : 0L), 1); }
-    { auto v = nm::unwrap(view::eye(4, 3, -2, i64)); EXPECT_VIEW2("C04.view.eye.shape", "C04.view.eye.element", v, 4,3, (i == j+2 ? 1L : 0L), 2); }
-    { auto v = nm::unwrap(view::identity(3, i64)); EXPECT_VIEW2("C04.view.identity.shape", "C04.view.identity.element", v, 3,3, (i == j ? 1L : 0L), 3); }
-    { auto v = nm::unwrap(view::tri(3, nm::None, 0, i64)); EXPECT_VIEW2("C04.view.tri.shape", "C04.view.tri.element", v, 3,3, (j <= i ? 1L : 0L), 4); }
-    { auto v = nm::unwrap(view::tri(2, 4, 1, i64)); EXPECT_VIEW2("C04.view.tri.shape", "C04.view.tri.element", v, 2,4, (j <= i+1 ? 1L : 0L), 5); }
-    { auto v = nm::unwrap(view::tri(3, 3, -1, i64)); EXPECT_VIEW2("C04.view.tri.shape", "C04.view.tri.element", v, 3,3, (j+1 <= i ? 1L : 0L), 6); }
+{ 
+    { VIEW(v, view::eye(3, nm::None, 0, i64)); EXPECT_VIEW2("C04.view.eye.shape", "C04.view.eye.element", v, 3,3, (i == j ? 1L : 0L), 0); }
+    { VIEW(v, view::eye(2, 4, 1, i64)); EXPECT_VIEW2("C04.view.eye.shape", "C04.view.eye.element", v, 2,4, (j == i+1 ? 1L : 0L), 1); }
+    { VIEW(v, view::eye(4, 3, -2, i64)); EXPECT_VIEW2("C04.view.eye.shape", "C04.view.eye.element", v, 4,3, (i == j+2 ? 1L : 0L), 2); }
+    { VIEW(v, view::identity(3, i64)); EXPECT_VIEW2("C04.view.identity.shape", "C04.view.identity.element", v, 3,3, (i == j ? 1L : 0L), 3); }
+    { VIEW(v, view::tri(3, nm::None, 0, i64)); EXPECT_VIEW2("C04.view.tri.shape", "C04.view.tri.element", v, 3,3, (j <= i ? 1L : 0L), 4); }
+    { VIEW(v, view::tri(2, 4, 1, i64)); EXPECT_VIEW2("C04.view.tri.shape", "C04.view.tri.element", v, 2,4, (j <= i+1 ? 1L : 0L), 5); }
+    { VIEW(v, view::tri(3, 3, -1, i64)); EXPECT_VIEW2("C04.view.tri.shape", "C04.view.tri.element", v, 3,3, (j+1 <= i ? 1L : 0L), 6); }
 }
-void ob_c04j_fill(const carr<2,3>& a, long val)
-{
-    { auto v = nm::unwrap(view::full(std::array<size_t,2>{2,3}, val)); EXPECT_VIEW2("C04.view.full.shape", "C04.view.full.element", v, 2,3, val, 0); }
-    { auto v = nm::unwrap(view::zeros(std::array<size_t,2>{3,2}, i64)); EXPECT_VIEW2("C04.view.zeros.shape", "C04.view.zeros.element", v, 3,2, 0L, 1); }
-    { auto v = nm::unwrap(view::ones(cshape<2,2>{}, i64)); EXPECT_VIEW2("C04.view.ones.shape", "C04.view.ones.element", v, 2,2, 1L, 2); }
-    { auto v = nm::unwrap(view::full_like(a, val)); EXPECT_VIEW2("C04.view.full_like.shape", "C04.view.full_like.element", v, 2,3, val, 3); }
-    { auto v = nm::unwrap(view::zeros_like(a)); EXPECT_VIEW2("C04.view.zeros_like.shape", "C04.view.zeros_like.element", v, 2,3, 0L, 4); }
-    { auto v = nm::unwrap(view::ones_like(a)); EXPECT_VIEW2("C04.view.ones_like.shape", "C04.view.ones_like.element", v, 2,3, 1L, 5); }
+void ob_c04j_fill(const ARR<2,3>& a, long val)
+{ PIN(a, 2,3);
+    { VIEW(v, view::full(std::array<size_t,2>{2,3}, val)); EXPECT_VIEW2("C04.view.full.shape", "C04.view.full.element", v, 2,3, val, 0); }
+    { VIEW(v, view::zeros(std::array<size_t,2>{3,2}, i64)); EXPECT_VIEW2("C04.view.zeros.shape", "C04.view.zeros.element", v, 3,2, 0L, 1); }
+    { VIEW(v, view::ones(cshape<2,2>{}, i64)); EXPECT_VIEW2("C04.view.ones.shape", "C04.view.ones.element", v, 2,2, 1L, 2); }
+    { VIEW(v, view::full_like(a, val)); EXPECT_VIEW2("C04.view.full_like.shape", "C04.view.full_like.element", v, 2,3, val, 3); }
+    { VIEW(v, view::zeros_like(a)); EXPECT_VIEW2("C04.view.zeros_like.shape", "C04.view.zeros_like.element", v, 2,3, 0L, 4); }
+    { VIEW(v, view::ones_like(a)); EXPECT_VIEW2("C04.view.ones_like.shape", "C04.view.ones_like.element", v, 2,3, 1L, 5); }
 }
 void ob_c04j_arange()
-{
-    { auto v = nm::unwrap(view::arange(5, i64)); EXPECT_VIEW1("C04.view.arange.shape", "C04.view.arange.element", v, 5, (long)i, 0); }
-    { auto v = nm::unwrap(view::arange(2, 8, 2, i64)); EXPECT_VIEW1("C04.view.arange.shape", "C04.view.arange.element", v, 3, 2 + 2*(long)i, 1); }
-    { auto v = nm::unwrap(view::arange(2, 9, 3, i64)); EXPECT_VIEW1("C04.view.arange.stop_not_on_the_grid", "C04.view.arange.element", v, 3, 2 + 3*(long)i, 2); }
-    { auto v = nm::unwrap(view::arange(-3, 1, i64)); EXPECT_VIEW1("C04.view.arange.shape", "C04.view.arange.element", v, 4, -3 + (long)i, 3); }
+{ 
+    { VIEW(v, view::arange(5, i64)); EXPECT_VIEW1("C04.view.arange.shape", "C04.view.arange.element", v, 5, (long)i, 0); }
+    { VIEW(v, view::arange(2, 8, 2, i64)); EXPECT_VIEW1("C04.view.arange.shape", "C04.view.arange.element", v, 3, 2 + 2*(long)i, 1); }
+    { VIEW(v, view::arange(2, 9, 3, i64)); EXPECT_VIEW1("C04.view.arange.stop_not_on_the_grid", "C04.view.arange.element", v, 3, 2 + 3*(long)i, 2); }
+    { VIEW(v, view::arange(-3, 1, i64)); EXPECT_VIEW1("C04.view.arange.shape", "C04.view.arange.element", v, 4, -3 + (long)i, 3); }
 }
 // ---- pad (pad_width: all leading widths, then all trailing widths), resize (nearest-neighbour: src = floor(src_extent * i / dst_extent)), expand
-void ob_c04j_pad(const carr<2,2>& a, long val)
-{
-    { auto v = nm::unwrap(view::pad(a, std::array<int,4>{1,0,0,2}, val)); EXPECT_VIEW2("C04.view.pad.shape", "C04.view.pad.element_or_fill", v, 3,4, ((i >= 1 && j < 2) ? a(i >= 1 ? i-1 : Z, j < 2 ? j : Z) : val), 0); }
-    { auto v = nm::unwrap(view::pad(a, std::array<int,4>{0,2,1,0}, val)); EXPECT_VIEW2("C04.view.pad.shape", "C04.view.pad.element_or_fill", v, 3,4, ((i < 2 && j >= 2) ? a(i < 2 ? i : Z, j >= 2 ? j-2 : Z) : val), 1); }
+void ob_c04j_pad(const ARR<2,2>& a, long val)
+{ PIN(a, 2,2);
+    { VIEW(v, view::pad(a, std::array<int,4>{1,0,0,2}, val)); EXPECT_VIEW2("C04.view.pad.shape", "C04.view.pad.element_or_fill", v, 3,4, ((i >= 1 && j < 2) ? a(i >= 1 ? i-1 : Z, j < 2 ? j : Z) : val), 0); }
+    { VIEW(v, view::pad(a, std::array<int,4>{0,2,1,0}, val)); EXPECT_VIEW2("C04.view.pad.shape", "C04.view.pad.element_or_fill", v, 3,4, ((i < 2 && j >= 2) ? a(i < 2 ? i : Z, j >= 2 ? j-2 : Z) : val), 1); }
 }
-void ob_c04j_resize(const carr<2,3>& a)
-{
-    { auto v = nm::unwrap(view::resize(a, std::array<size_t,2>{4,6})); EXPECT_VIEW2("C04.view.resize.shape", "C04.view.resize.nearest_neighbour", v, 4,6, a(2*i/4, 3*j/6), 0); }
-    { auto v = nm::unwrap(view::resize(a, std::array<size_t,2>{3,2})); EXPECT_VIEW2("C04.view.resize.shape", "C04.view.resize.nearest_neighbour", v, 3,2, a(2*i/3, 3*j/2), 1); }
-    { auto v = nm::unwrap(view::resize(a, std::array<size_t,2>{1,5})); EXPECT_VIEW2("C04.view.resize.shape", "C04.view.resize.nearest_neighbour", v, 1,5, a(2*i/1, 3*j/5), 2); }
+void ob_c04j_resize(const ARR<2,3>& a)
+{ PIN(a, 2,3);
+    { VIEW(v, view::resize(a, std::array<size_t,2>{4,6})); EXPECT_VIEW2("C04.view.resize.shape", "C04.view.resize.nearest_neighbour", v, 4,6, a(2*i/4, 3*j/6), 0); }
+    { VIEW(v, view::resize(a, std::array<size_t,2>{3,2})); EXPECT_VIEW2("C04.view.resize.shape", "C04.view.resize.nearest_neighbour", v, 3,2, a(2*i/3, 3*j/2), 1); }
+    { VIEW(v, view::resize(a, std::array<size_t,2>{1,5})); EXPECT_VIEW2("C04.view.resize.shape", "C04.view.resize.nearest_neighbour", v, 1,5, a(2*i/1, 3*j/5), 2); }
 }
-void ob_c04j_expand(const carr<2,3>& a, long fill)
-{
-    { auto v = nm::unwrap(view::expand(a, 1, 1, fill)); EXPECT_VIEW2("C04.view.expand.shape", "C04.view.expand.element_or_fill", v, 2,5, (j % 2 == 0 ? a(i, j/2) : fill), 0); }
-    { auto v = nm::unwrap(view::expand(a, 0, 2, fill)); EXPECT_VIEW2("C04.view.expand.shape", "C04.view.expand.element_or_fill", v, 4,3, (i % 3 == 0 ? a(i/3, j) : fill), 1); }
-    { auto v = nm::unwrap(view::expand(a, -1, 2, fill)); EXPECT_VIEW2("C04.view.expand.shape", "C04.view.expand.negative_axis", v, 2,7, (j % 3 == 0 ? a(i, j/3) : fill), 2); }
-    { auto v = nm::unwrap(view::expand(a, std::array<int,2>{0,1}, std::array<int,2>{1,1}, fill)); EXPECT_VIEW2("C04.view.expand.shape", "C04.view.expand.several_axes", v, 3,5, ((i % 2 == 0 && j % 2 == 0) ? a(i/2, j/2) : fill), 3); }
+void ob_c04j_expand(const ARR<2,3>& a, long fill)
+{ PIN(a, 2,3);
+    { VIEW(v, view::expand(a, 1, 1, fill)); EXPECT_VIEW2("C04.view.expand.shape", "C04.view.expand.element_or_fill", v, 2,5, (j % 2 == 0 ? a(i, j/2) : fill), 0); }
+    { VIEW(v, view::expand(a, 0, 2, fill)); EXPECT_VIEW2("C04.view.expand.shape", "C04.view.expand.element_or_fill", v, 4,3, (i % 3 == 0 ? a(i/3, j) : fill), 1); }
+    { VIEW(v, view::expand(a, -1, 2, fill)); EXPECT_VIEW2("C04.view.expand.shape", "C04.view.expand.negative_axis", v, 2,7, (j % 3 == 0 ? a(i, j/3) : fill), 2); }
+    { VIEW(v, view::expand(a, std::array<int,2>{0,1}, std::array<int,2>{1,1}, fill)); EXPECT_VIEW2("C04.view.expand.shape", "C04.view.expand.several_axes", v, 3,5, ((i % 2 == 0 && j % 2 == 0) ? a(i/2, j/2) : fill), 3); }
 }
-void ob_c04j_negctl(const carr<3,4>& a)
-{
-    auto v = nm::unwrap(view::diagonal(a, 1));
+void ob_c04j_negctl(const ARR<3,4>& a)
+{ PIN(a, 3,4);
+    VIEW(v, view::diagonal(a, 1));
     NEGCTL("C04.NEG.diagonal_offset_sign", (long)v(0) == a(1, 0), 0);
 }
